@@ -262,7 +262,9 @@ fn spaced_names(ctx: &Ctx, rep: &mut Report, idx: &mut u64) {
         let _ = std::fs::create_dir_all(&dir);
         // names with spaces; and files whose extension the builder does not strip (or that have none), so that the sample
         // name IS the name of a file that still lies in the working directory
-        let fnames = ["sample.fa", "sample A.fa", "other.fna", "x 1.fas", "plain"];
+        // ... and names that differ in case (an upper-case name sorts before every lower-case one byte-wise, not so
+        // case-insensitively)
+        let fnames = ["sample.fa", "sample A.fa", "other.fna", "x 1.fas", "plain", "ERR1042.fa", "assembly_7.fa", "Sample_B.fa", "sample_a.fa"];
         for (i, f) in fnames.iter().enumerate() {
             std::fs::write(format!("{dir}/{f}"), scratch::fasta(&pool[i])).unwrap();
         }
@@ -289,7 +291,7 @@ fn spaced_names(ctx: &Ctx, rep: &mut Report, idx: &mut u64) {
         if names.iter().any(|n| std::path::Path::new(&format!("{dir}/{n}")).is_file()) {
             rep.corner("sample_name_is_an_existing_file_name");
         }
-        for del in [vec![names[1].clone()], vec![names[3].clone(), names[0].clone()], vec![names[0].clone()], vec![names[2].clone()], vec![names[4].clone()], vec![names[3].clone()], vec![names[4].clone(), names[2].clone()]] {
+        for del in [vec![names[1].clone()], vec![names[3].clone(), names[0].clone()], vec![names[0].clone()], vec![names[2].clone()], vec![names[4].clone()], vec![names[3].clone()], vec![names[4].clone(), names[2].clone()], vec![names[5].clone(), names[6].clone()], vec![names[6].clone(), names[5].clone()], vec![names[7].clone(), names[8].clone()], vec![names[8].clone(), names[7].clone(), names[5].clone()], vec![names[0].clone(), names[5].clone(), names[6].clone(), names[7].clone()]] {
             let want = orig.table.delete(&del);
             for via_file in [false, true] {
                 rep.evaluations += 1;
